@@ -1438,7 +1438,9 @@ func (i SmallInt) ModuloBigInt(other *BigInt) (Value, Value) {
 		return (i % oSmall).ToValue(), Undefined
 	}
 
-	return i.ToValue(), Undefined
+	iBigInt := big.NewInt(int64(i))
+	iBigInt.Rem(iBigInt, other.ToGoBigInt())
+	return SmallInt(iBigInt.Int64()).ToValue(), Undefined
 }
 
 func (i SmallInt) ModuloBigFloat(other *BigFloat) *BigFloat {
